@@ -165,13 +165,17 @@ fn case_strategy(tier: Tier, ex: Excl, wx: crate::props::c02::WhereExcl) -> Boxe
             let agg = prop_oneof![
                 3 => Just(Agg::Count),
                 2 => prop::sample::select(af.clone()).prop_map(|f| Agg::CountField(f.to_string())),
-                if ex.count_unique { 1 } else { 2 } => prop::sample::select(af.clone()).prop_map(move |f| if ex.count_unique { Agg::CountField(f.to_string()) } else { Agg::CountUnique(f.to_string()) }),
+                // open finding: COUNT UNIQUE over a NUMERIC field does not count distinct values; over text and enum fields it does
+                // (probed by hand), so those stay generated while the finding is open
+                2 => prop::sample::select(if ex.count_unique { vec!["e", "s"] } else { af.clone() }).prop_map(|f| Agg::CountUnique(f.to_string())),
                 2 => prop::sample::select(nf.clone()).prop_map(|f| Agg::Total(f.to_string())),
                 2 => prop::sample::select(nf.clone()).prop_map(|f| Agg::Avg(f.to_string())),
                 2 => prop::sample::select(if ex.min_max_string { nf.clone() } else { af.clone() }).prop_map(|f| Agg::Min(f.to_string())),
                 2 => prop::sample::select(if ex.min_max_string { nf.clone() } else { af.clone() }).prop_map(|f| Agg::Max(f.to_string())),
             ];
-            let by_fields: Vec<&'static str> = if ex.nullable { vec!["e", "s", "x", "y"] } else { vec!["e", "s", "x", "y", "o"] };
+            // (BY over the nullable field `o` is generated although the finding about null BY keys is open: run_case leaves
+            // the null-key groups out of the comparison while it is)
+            let by_fields: Vec<&'static str> = vec!["e", "s", "x", "y", "o"];
             let wh = where_strategy(&TypeDef { name: "ev".into(), fields: td.fields.iter().filter(|f| f.name == "x" || f.name == "y" || f.name == "e").cloned().collect() }, 2);
             let q = (
                 prop::collection::vec(agg, 1..=3),
@@ -238,6 +242,9 @@ fn close(a: f64, b: f64) -> bool {
 }
 
 static EXCL: Mutex<Option<Excl>> = Mutex::new(None);
+/// open finding: events whose BY field is null land in no group. While it is open the null-key groups are left out of the
+/// comparison (expected and reported); every other group of a BY over a nullable field is judged
+static NULL_GROUPS_UNJUDGED: std::sync::atomic::AtomicBool = std::sync::atomic::AtomicBool::new(false);
 
 fn run_case(c: &Case, rep: &mut CaseReport) -> Verdict {
     let types = vec![c.td.clone()];
@@ -311,6 +318,21 @@ fn run_case(c: &Case, rep: &mut CaseReport) -> Verdict {
                 }
                 groups.entry(key).or_default().push(e);
             }
+            let null_keys: Vec<Vec<String>> = if NULL_GROUPS_UNJUDGED.load(std::sync::atomic::Ordering::Relaxed) {
+                let off = if q.per.is_some() { 1 } else { 0 };
+                groups
+                    .iter()
+                    .filter(|(_, evs)| q.by.iter().any(|b| evs[0].vals[fidx(b).unwrap()].is_null()))
+                    .map(|(k, _)| k.clone())
+                    .inspect(|k| debug_assert!(k.len() >= off))
+                    .collect()
+            } else {
+                vec![]
+            };
+            for k in &null_keys {
+                groups.remove(k);
+                rep.excluded_known += 1;
+            }
             // reported groups
             let mut key_cols: Vec<usize> = vec![];
             if q.per.is_some() {
@@ -331,6 +353,9 @@ fn run_case(c: &Case, rep: &mut CaseReport) -> Verdict {
                 if reported.insert(key.clone(), row).is_some() {
                     return Verdict::fail("group-reported-twice", json!({"cmd": agg, "group": key, "rows": ra.rows, "log": w.db.log}));
                 }
+            }
+            for k in &null_keys {
+                reported.remove(k);
             }
             let detail = |why: &str, extra: Value| {
                 json!({"why": why, "cmd": agg, "selection_cmd": sel, "layout": layout, "extra": extra, "reported": ra.rows, "columns": ra.columns,
@@ -454,6 +479,7 @@ pub fn run(ctx: &Ctx) -> i32 {
         no_restart: ctx.open_any("crash.after_manual_flush_or_clean_restart") || ctx.open_any("crash.store_after_compaction_and_restart"),
     };
     *EXCL.lock().unwrap() = Some(ex);
+    NULL_GROUPS_UNJUDGED.store(ex.nullable, std::sync::atomic::Ordering::Relaxed);
     crate::props::c02::KNOWN_ID_REUSE.store(ctx.open_any("layout.stale_cache_after_id_reuse"), std::sync::atomic::Ordering::Relaxed);
     let wx = crate::props::c02::WhereExcl::from_ctx_any(ctx);
     let cases = ctx.tier.pick(240, 1500);
